@@ -10,8 +10,8 @@ from ..engine import Query
 from .c37 import HeaderRxHarness
 
 PROP = "C38"
-ENCODED = ["luna/gateware/usb/usb3/link/receiver.py: HeaderPacketReceiver.elaborate (reset-on-disable block inside "
-           "DISPATCH_COMMAND, acks_to_send / credits_to_issue / next_header_to_ack re-initialisation)",
+ENCODED = ["luna/gateware/usb/usb3/link/receiver.py: HeaderPacketReceiver.elaborate (link restart block "
+           "(restart_link), SEND_* state exits, dispatch gating, acks_to_send / credits_to_issue / next_header_to_ack re-initialisation)",
            "luna/gateware/usb/usb3/link/layer.py: enable = ltssm.link_ready, usb_reset = in_reset (wiring read, not elaborated)"]
 ASSUMPTIONS = [
     "all C37 partner assumptions (well-framed headers, credit rule, LRTY contract)",
@@ -28,26 +28,18 @@ BOUNDS = "BMC from reset, enable/usb_reset free every cycle: quick K=36 everythi
 OUTSIDE = "down/reset while a header is being received; traces longer than the bound; LAU/LPMA responses"
 
 
-# FINDINGS (HeaderPacketReceiver, luna/gateware/usb/usb3/link/receiver.py; recorded in known_findings.json, status open,
-# not patched: the repair touches every state of the command FSM)
-#  reset_during_command   The reset-on-disable block `with m.If((last_enable & ~self.enable) | self.usb_reset)` is
-#     nested in `m.State("DISPATCH_COMMAND")` (line ~494).  A usb_reset strobe or the falling edge of enable that
-#     arrives while the FSM is in SEND_ACKS / ISSUE_CREDITS / SEND_LBAD / SEND_LRTY / SEND_KEEPALIVE / SEND_LXU is
-#     lost (last_enable has followed enable by the time the FSM is back): buffers stay filled and offered, no LGOOD
-#     advertisement, LCRD numbering continues, a stale lbad_pending / ignore_packets survives re-entry, sequence
-#     numbers are not reset.  Predicate: the event's cycle, or the next one, has the DUT's link command stream valid.
-#  reset_at_dispatch      usb_reset with the link up in a DISPATCH_COMMAND cycle that also dispatches: the next
-#     state (ISSUE_CREDITS, SEND_LBAD, SEND_ACKS) is chosen from the state being discarded, so LCRDs / an LBAD go out
-#     before the LGOOD advertisement and the LGOOD numbering is shifted.  Predicate: LCSTART first offered exactly
-#     two cycles after the reset cycle, stream idle in between.
-#  lgood_owed_at_link_down   Properly handled link-down while an LGOOD is still owed: the block advertises
-#     next_header_to_ack - 1, which is the last received sequence number only if every LGOOD had been sent.
-#     Predicate: at the link-down the ghost still expects the advertisement or an acknowledgement.
-#  All three predicates stay set until the next USB reset (a plain link-down does not restore sequence numbers).
-#  A repair was prototyped (global reset block, every SEND_* state returns to DISPATCH_COMMAND, generate gated,
-#  dispatch waits for an idle generator, advertise expected_sequence_number - 1): /verif/tools/c38_fix.diff; its
-#  first iterations exposed two more races (generate latched in the reset cycle; the stale command's `done` taken
-#  as completion of the advertisement), so a partial fix is worse than none.
+# FINDINGS (HeaderPacketReceiver, luna/gateware/usb/usb3/link/receiver.py) -- all three REPAIRED in luna
+# (findings/C38_adv_number.patch, C38_reset_at_dispatch.patch, C38_reset_any_state.patch); the scenario predicates
+# kf_reset_during_command / kf_reset_at_dispatch / kf_lgood_owed_at_link_down were removed from the harness, every
+# assertion is checked at every crash point.
+#  reset_during_command   The reset-on-disable block was nested in `m.State("DISPATCH_COMMAND")`: a usb_reset strobe or
+#     the falling edge of enable arriving while the FSM was in a SEND_* / ISSUE_CREDITS state was lost.  Now a global
+#     block after the FSM (restart_link); every sending state returns to DISPATCH_COMMAND, `generate` is gated in the
+#     restart cycle and dispatch waits for a command that was already on the wire to drain.
+#  reset_at_dispatch      usb_reset in a DISPATCH_COMMAND cycle that also dispatched: the next state was chosen from
+#     the state being discarded.  Now no dispatch in a usb_reset cycle.
+#  lgood_owed_at_link_down   The block advertised next_header_to_ack - 1, which is the last received sequence number
+#     only if every LGOOD had been sent.  Now expected_sequence_number - 1.
 
 C38_ASSERTS = ["adv_first", "adv_missing", "stale_offer", "offer_valid", "lgood_number", "lcrd_order", "lcrd_free",
                "lbad_cause", "lc_format"]
@@ -69,5 +61,13 @@ def queries(tier):
     if not quick:
         qs.append(Query("bmc_2hp_free", f2, 46, timeout=1800, split=False, covers=[],
                         desc="2 headers, enable/usb_reset and everything else free"))
+    # re-entry between two headers: the first header (symbolic, may be corrupted -> LBAD, ignore-until-retry), link down /
+    # reset and re-advertisement in the 14-cycle gap, then the second header: it must be accepted and delivered afresh
+    f2gap = lambda: HeaderRxHarness(n_packets=2, lead=9, spacing=14, free_enable=True)
+    qs.append(Query("bmc_2hp_reentry", f2gap, 46, timeout=1800, split=False, layer={"lxu": 0, "keepalive": 0},
+                    asserts=C38_ASSERTS + ["offer_missing", "deliver_order"], covers=["accept_after_ignoring_reentry"],
+                    hints={"*": {"src_ready": 1, "retry_required": 0}},
+                    desc="2 headers 14 idle words apart; enable / usb_reset free: receive state (buffers, ignore-until-retry, "
+                         "sequence expectation) is fresh after re-entry, the next header is accepted and delivered"))
     qs.append(Query("cosim", f2, 0, kind="cosim", cosim_cycles=150 if quick else 600))
     return qs
